@@ -130,6 +130,7 @@ func (env *httpEnv) putBody(cc *charCase, entries []putEntry) []byte {
 }
 
 func checkC11(c *Ctx) {
+	c11Events(c)
 	c.SetRule("one case = one characteristic (every zero-argument constructor of package characteristic, and custom characteristics with random " +
 		"subsets of {pr,pw,ev,hd,wr}) and a sequence of 1–8 operations: local updates, UpdateValueFromConnection, reads with get functions, and PUT " +
 		"/characteristics requests (value and/or ev entries) served by the real handler with a registered session; non-trivial = at least one step was refused by a " +
@@ -392,5 +393,129 @@ func c11Malformed(c *Ctx, env *httpEnv) {
 			outcome = "panic:" + panicClass(msg)
 		}
 		c.Count(body+cc.cfgTokens(), decodes && (ncb > 0 || len(resp.Entries) > 0), "c11-malformed:decodes="+fmt.Sprint(decodes), "c11-malformed:"+outcome)
+	}
+}
+
+// c11Events (end to end, direct oracle): on a bridge whose accessories have the same shape (so instance ids coincide),
+// a subscription to a characteristic WITH the event permission must not make the twin WITHOUT it produce events, a
+// subscription on one without the permission is answered with -70406, and a characteristic without read permission never
+// reveals a value, not even in an event.
+func c11Events(c *Ctx) {
+	for i := 0; i < c.Pick(2, 12); i++ {
+		id := c.CaseID("events", i)
+		if c.Skip(id) {
+			continue
+		}
+		r := c.CaseRng("events", i)
+		mk := func(name string, p1, p2 []string) (*accessory.Accessory, *characteristic.Int, *characteristic.Int) {
+			a := accessory.New(accessory.Info{Name: name}, accessory.TypeOther)
+			sv := service.New("F00A")
+			c1 := characteristic.NewInt("F1A1")
+			c1.Format = characteristic.FormatUInt8
+			c1.Perms = p1
+			c2 := characteristic.NewInt("F1A2")
+			c2.Format = characteristic.FormatUInt8
+			c2.Perms = p2
+			c1.SetValue(1)
+			c2.SetValue(1)
+			sv.AddCharacteristic(c1.Characteristic)
+			sv.AddCharacteristic(c2.Characteristic)
+			a.AddService(sv)
+			return a, c1, c2
+		}
+		pr, pw, ev := characteristic.PermRead, characteristic.PermWrite, characteristic.PermEvents
+		accA, a1, a2 := mk("A", []string{pr, ev}, []string{pw, ev})
+		accB, b1, b2 := mk("B", []string{pr}, []string{pr, pw})
+		acc, err := startE2E(c.ScratchDir(), "00102003", false, accA, accB)
+		if err != nil {
+			c.Violate("transport does not start", id, nil, "started", err.Error())
+			continue
+		}
+		func() {
+			defer acc.Stop()
+			ident := newRefIdentity(r, "ctrl-1")
+			setup, _ := acc.Dial()
+			sr := refPairSetup(r, setup.Post(), "001-02-003", ident)
+			setup.Close()
+			if sr.ErrAt != "" {
+				c.Violate("reference controller cannot pair", id, nil, "paired", sr.ErrAt)
+				return
+			}
+			dial := func() *refClient {
+				cl, err := acc.Dial()
+				if err != nil {
+					return nil
+				}
+				vr := refPairVerify(r, cl.Post(), ident, sr.AccLTPK)
+				if vr.Shared == nil {
+					return nil
+				}
+				cl.Upgrade(vr.Shared)
+				return cl
+			}
+			sub, wr := dial(), dial()
+			if sub == nil || wr == nil {
+				c.Violate("paired reference controller cannot verify", id, nil, "verified", "failed")
+				return
+			}
+			defer sub.Close()
+			defer wr.Close()
+			put := func(cl *refClient, a *accessory.Accessory, ch *characteristic.Int, member string) (*refMsg, error) {
+				body := fmt.Sprintf(`{"characteristics":[{"aid":%d,"iid":%d,%s}]}`, a.ID, ch.ID, member)
+				return cl.Do("PUT", "/characteristics", "application/hap+json", []byte(body))
+			}
+			// subscriptions
+			for _, t := range []struct {
+				a    *accessory.Accessory
+				ch   *characteristic.Int
+				want bool
+				what string
+			}{{accA, a1, true, "A.a1 {pr,ev}"}, {accA, a2, true, "A.a2 {pw,ev}"}, {accB, b1, false, "B.b1 {pr}"}, {accB, b2, false, "B.b2 {pr,pw}"}} {
+				m, err := put(sub, t.a, t.ch, `"ev":true`)
+				if err != nil {
+					c.Violate("request on a verified connection fails", id, t.what, "answer", err.Error())
+					return
+				}
+				refused := strings.Contains(string(m.Body), "-70406")
+				if t.want == refused {
+					c.Violate("C11: subscription on a characteristic without event permission not answered with -70406", id, t.what, fmt.Sprint("refused=", !t.want), fmt.Sprint(m.Status, " ", string(m.Body)))
+				}
+			}
+			fence := func() []refMsg {
+				sub.Do("GET", fmt.Sprintf("/characteristics?id=%d.%d", accA.ID, a1.ID), "", nil)
+				ev := sub.Events
+				sub.Events = nil
+				return ev
+			}
+			fence()
+			// changes of the characteristics without event permission: no event, whoever makes them
+			b1.SetValue(2 + r.Intn(50))
+			b2.SetValue(2 + r.Intn(50))
+			put(wr, accB, b2, fmt.Sprintf(`"value":%d`, 60+r.Intn(50)))
+			for _, e := range fence() {
+				c.Violate("C11: characteristic without event permission produced an event", id,
+					map[string]interface{}{"subscribed_to": "A.a1, A.a2 (same instance ids as B.b1, B.b2)", "changed": "B.b1, B.b2"}, "no EVENT", string(e.Body))
+			}
+			// write-only characteristic with events: subscribers learn that it changed, never a value
+			secret := 100 + r.Intn(100)
+			put(wr, accA, a2, fmt.Sprintf(`"value":%d`, secret))
+			a2.UpdateValue(secret + 1)
+			evs := fence()
+			for _, e := range evs {
+				if strings.Contains(string(e.Body), fmt.Sprint(secret)) || strings.Contains(string(e.Body), fmt.Sprint(secret+1)) {
+					c.Violate("C11: characteristic without read permission revealed a value in an event", id, "A.a2 {pw,ev}", `"value":null`, string(e.Body))
+				}
+			}
+			if a2.Characteristic.Value != nil {
+				c.Violate("C11: characteristic without read permission stores a value", id, "A.a2 {pw,ev}", "nil", fmt.Sprint(a2.Characteristic.Value))
+			}
+			// positive control: the observable characteristic does notify
+			a1.SetValue(7 + r.Intn(50))
+			if len(fence()) != 1 {
+				c.Mismatch("c11-events", id, "local change of A.a1 with a subscriber", "1 event", "none or several")
+			}
+			c.Count(fmt.Sprint("events/", i), true, "stream:events-e2e")
+			c.Trace()
+		}()
 	}
 }
